@@ -176,8 +176,13 @@ class Context:
                 return "[object Function]"
             return "[object Object]"
 
+        def property_key(key):
+            # ToPropertyKey: calling an object's toString needs the running VM
+            vm = self._current_vm
+            return vm._to_property_key(key) if vm is not None else to_string(key)
+
         def proto_hasOwnProperty(this_val, *args):
-            prop = to_string(args[0]) if args else ""
+            prop = property_key(args[0]) if args else ""
             if isinstance(this_val, JSArray):
                 # For arrays, check both properties and array indices
                 try:
@@ -297,7 +302,7 @@ class Context:
             obj, prop, descriptor = args[0], args[1], args[2]
             if not isinstance(obj, JSObject):
                 return obj
-            prop_name = to_string(prop)
+            prop_name = property_key(prop)
 
             if isinstance(descriptor, JSObject):
                 # Check for getter/setter
@@ -358,7 +363,7 @@ class Context:
             obj, prop = args[0], args[1]
             if not isinstance(obj, JSObject):
                 return UNDEFINED
-            prop_name = to_string(prop)
+            prop_name = property_key(prop)
 
             if (
                 not obj.has(prop_name)
